@@ -94,8 +94,9 @@ Record client := {
   cl_id : option bytes;                       (* c.id *)
   cl_closed : bool;
   cl_cache : list (bytes * option bytes);     (* client-side cache: key -> cached GET reply (None = cached nil) *)
-  cl_prev : list (bytes * option bytes) }.    (* the entries the last delivered invalidation removed (a read that
-                                                 was under way when it arrived may still have seen them) *)
+  cl_prev : list (bytes * option bytes) }.    (* the entries delivered invalidations removed since the client's last
+                                                 real read of the key (a read that was under way when one arrived
+                                                 may still have seen them) *)
 
 Inductive gerr := ENil | ELoader | ENet | ECtx.
 
@@ -158,6 +159,19 @@ Fixpoint touch_all (tr infl : list (nat * bytes)) (ks : list bytes) : list (nat 
   match ks with
   | [] => (tr, infl)
   | k :: r => let '(tr', infl') := touch tr infl k in touch_all tr' infl' r
+  end.
+
+(** one invalidation message is consumed per delivered key *)
+Fixpoint rm1 (x : nat * bytes) (l : list (nat * bytes)) : list (nat * bytes) :=
+  match l with
+  | [] => []
+  | y :: r => if pair_eqb x y then r else y :: rm1 x r
+  end.
+
+Fixpoint rm_keys (c : nat) (ks : list bytes) (l : list (nat * bytes)) : list (nat * bytes) :=
+  match ks with
+  | [] => l
+  | k :: r => rm_keys c r (rm1 (c, k) l)
   end.
 
 Definition track (tr : list (nat * bytes)) (c : nat) (k : bytes) : list (nat * bytes) :=
@@ -430,9 +444,9 @@ Section Step.
       | Some cl =>
         if forallb (fun k => mem_pair (c, k) (a_infl s)) ks then
           let cl' := {| cl_id := cl_id cl; cl_closed := cl_closed cl; cl_cache := cremove (cl_cache cl) ks;
-                        cl_prev := ckeep (cl_cache cl) ks |} in
+                        cl_prev := ckeep (cl_cache cl) ks ++ cl_prev cl |} in
           Some ({| a_now := a_now s; a_store := a_store s; a_track := a_track s;
-                   a_infl := filter (fun e => negb (Nat.eqb (fst e) c && mem_key (snd e) ks)) (a_infl s);
+                   a_infl := rm_keys c ks (a_infl s);
                    a_cls := upd c cl' (a_cls s); a_gets := map (close_waits c ks) (a_gets s);
                    a_loaded := a_loaded s; a_ext := a_ext s; a_lock := a_lock s |}, ONone)
         else None
